@@ -113,6 +113,8 @@ def check_writers(chk, prog):
             chk.evaluated(1, nontrivial=(key, fld["name"], fn["pretty"]))
             def base_ok(f, allowed=allowed):
                 return f["name"] in allowed and (f.get("trait", "").endswith("Settable") or is_adt(f.get("impl_self") or {}, "SettableData"))
+            if not base_ok(fn) and W.private_helper_of(prog, fn, base_ok):
+                writers |= W.helper_roots(prog, fn, base_ok)     # the helper writes on behalf of these allowed functions
             if not (base_ok(fn) or W.private_helper_of(prog, fn, base_ok)):
                 chk.violation("C15.W", "writer:%s:%s" % (fld["name"], fn["pretty"]), "%s (%s) writes SettableData::%s (%s); only %s may" % (fn["pretty"], loc(span), fld["name"], kind, sorted(allowed)),
                               fn=fn["pretty"], file=loc(span))
@@ -204,7 +206,16 @@ def check_following(chk, prog, sim):
     for leaf in sim.run(f, g, [sim.make_arg(st, "self", subst(f["sig_inputs"][0], g))], st):
         chk.evaluated(1, nontrivial=(key, "get_last_request"))
         r = sim.final_value(leaf.state, leaf.value) if leaf.kind == "return" else None
-        if "last_request" not in repr(r):
+        # the stored field as this leaf sees it (a combinator such as as_ref().cloned() splits it into None / Some(x))
+        stored = None
+        for o in leaf.state.mem:
+            if o.startswith("*self.get_settable_data_ref"):
+                d = sim.final_value(leaf.state, leaf.state.mem[o])
+                if isinstance(d, Struct):
+                    names = [n for n, _ in sim.adt_fields(d.ty)]
+                    stored = d.fields[names.index("last_request")]
+        same = stored is not None and (r == stored or (isinstance(r, Enum) and isinstance(stored, Enum) and r.vname == stored.vname and tuple(r.fields) == tuple(stored.fields)))
+        if not same and not (stored is None and "last_request" in repr(r)):
             chk.violation("C15.F", key + ":get_last_request", "get_last_request returns %r, not the stored last_request" % (r,), fn=f["pretty"])
             ok = False
     if ok:
